@@ -126,6 +126,7 @@ func loadProg(name, dir string, lc LoadConfig) (*Prog, error) {
 		}
 		p.Product[rel] = true
 	}
+	p.resolveCanonFields()
 	return p, nil
 }
 
